@@ -161,8 +161,22 @@ def check_c05(ctx, prog, I, quick):
     check_history(ctx, prog, I)
 
 
+def as_list(v):
+    """a List value chosen between two lists (`if reset { List::new() } else { old.clone() }` built as values) is the list whose
+    head link is chosen the same way"""
+    if isinstance(v, Ite) and isinstance(v.a, (Struct, Ite)) and isinstance(v.b, (Struct, Ite)):
+        a_, b_ = as_list(v.a), as_list(v.b)
+        if not (isinstance(a_, Struct) and isinstance(b_, Struct) and a_.ty.split('<')[0] == b_.ty.split('<')[0]
+                and len(a_.fields) == 1 and len(b_.fields) == 1):
+            return v
+        fa, fb = a_.fields[0], b_.fields[0]
+        return Struct(a_.ty if '<T>' not in a_.ty else b_.ty, (fa if fa is fb else Ite(v.c, fa, fb),))
+    return v
+
+
 def list_head(prog, lst):
     """List<Zobrist> value -> (elem, next) of its head node, or None"""
+    lst = as_list(lst)
     head = lst.fields[0]
     if isinstance(head, Enum) and head.var == 1:
         arc = head.fields[0]
@@ -244,7 +258,7 @@ def check_history(ctx, prog, I):
     gsv = inputs.play_state(prog, True, 1)
     succ = take(I, prog, gsv, move_action(prog, s, d))
     pl = play_of(prog, succ)
-    hist = fld(prog, PP, pl, 'hash_history').fields[0]
+    hist = as_list(fld(prog, PP, pl, 'hash_history')).fields[0]
     ok = old_head == hist or (isinstance(hist, Ite) and ((old_head == hist.a and isinstance(hist.b, Enum) and hist.b.var == 0) or
                                                           (old_head == hist.b and isinstance(hist.a, Enum) and hist.a.var == 0)))
     ctx.ob('mid-turn step keeps the history (or cuts it at a capture)', ok)
